@@ -143,6 +143,11 @@ loop:
 				a.last = c
 				break loop
 			}
+			// A filename is a single path component. Anything else would let
+			// an archive place entries outside of the target directory.
+			if d.Name == "" || d.Name == "." || d.Name == ".." || strings.ContainsAny(d.Name, "/\x00") {
+				return nil, InvalidFormat{fmt.Sprintf("invalid filename '%s'", d.Name)}
+			}
 			name = d.Name
 		case FormatGoodbye: // This will effectively be a "cd .."
 			if entry != nil {
